@@ -162,9 +162,14 @@ def classify(pid, results, baseline, known):
                     if k["clause"] == clause_key(o) and k.get("site", "") == (o.get("src") or ""):
                         matched = k
                         break
+                # an anchor of this function's contract was not found (the anchored statement was edited): ghost updates
+                # and assumptions tied to it did not happen, so clauses that may depend on them are not decided;
+                # run-time safety, locking and frame obligations do not depend on anchors and still count
+                anchor_drift = any("anchor not found" in d for d in (f.get("drift") or []))
+                independent = o["kind"] in ("index", "slice", "div", "nil", "panic", "exit", "typeassert", "makeslice", "lock", "monitor", "frame", "shift", "conv")
                 if matched:
                     rep["known"].append((o, matched))
-                elif clause_key(o) in base:
+                elif clause_key(o) in base and (not anchor_drift or independent):
                     rep["violations"].append(o)
                 else:
                     rep["undecided"].append(o)
